@@ -612,6 +612,11 @@ func c09Work(c *engine.Ctx) {
 				// attribute name / between attributes
 				{"<a " + r + ">", []hTok{{tt: html.StartTagToken, data: "<a", text: "a"}, {tt: html.AttributeToken, data: " " + r, text: r, tmpl: true}, {tt: html.StartTagCloseToken, data: ">"}}},
 				{"<a B" + r + "=c>", []hTok{{tt: html.StartTagToken, data: "<a", text: "a"}, {tt: html.AttributeToken, data: " B" + r + "=c", text: "B" + r, val: "c", tmpl: true}, {tt: html.StartTagCloseToken, data: ">"}}},
+				// regions anywhere in an unquoted value: adjacent ones, after and before other characters
+				{"<a b=" + r + r + " c>", []hTok{{tt: html.StartTagToken, data: "<a", text: "a"}, {tt: html.AttributeToken, data: " b=" + r + r, text: "b", val: r + r, tmpl: true}, {tt: html.AttributeToken, data: " c", text: "c"}, {tt: html.StartTagCloseToken, data: ">"}}},
+				{"<a b=x" + r + ">", []hTok{{tt: html.StartTagToken, data: "<a", text: "a"}, {tt: html.AttributeToken, data: " b=x" + r, text: "b", val: "x" + r, tmpl: true}, {tt: html.StartTagCloseToken, data: ">"}}},
+				{"<a b=" + r + "y c>", []hTok{{tt: html.StartTagToken, data: "<a", text: "a"}, {tt: html.AttributeToken, data: " b=" + r + "y", text: "b", val: r + "y", tmpl: true}, {tt: html.AttributeToken, data: " c", text: "c"}, {tt: html.StartTagCloseToken, data: ">"}}},
+				{"<a b=/p/" + r + "/q" + r + ">", []hTok{{tt: html.StartTagToken, data: "<a", text: "a"}, {tt: html.AttributeToken, data: " b=/p/" + r + "/q" + r, text: "b", val: "/p/" + r + "/q" + r, tmpl: true}, {tt: html.StartTagCloseToken, data: ">"}}},
 				// upper-case names next to template regions: names are lower-cased, values stay verbatim
 				{"<A HREF=" + r + " Class=X>", []hTok{{tt: html.StartTagToken, data: "<a", text: "a"}, {tt: html.AttributeToken, data: " href=" + r, text: "href", val: r, tmpl: true}, {tt: html.AttributeToken, data: " class=X", text: "class", val: "X"}, {tt: html.StartTagCloseToken, data: ">"}}},
 				{"<a Data-X=\"P" + r + "Q\" ID='" + r + "'>", []hTok{{tt: html.StartTagToken, data: "<a", text: "a"}, {tt: html.AttributeToken, data: " data-x=\"P" + r + "Q\"", text: "data-x", val: "\"P" + r + "Q\"", tmpl: true}, {tt: html.AttributeToken, data: " id='" + r + "'", text: "id", val: "'" + r + "'", tmpl: true}, {tt: html.StartTagCloseToken, data: ">"}}},
